@@ -44,6 +44,10 @@ CLAIMED["C08"] = ("Refinement invariant proved for every history of the composed
 CLAIMED["C18"] = ("22 theorems on the governance-v2 model: status = documented function with rational thresholds (integer forms proved equivalent), None iff unused/cancelled; one vote per address per proposal, only while Active, "
     "power = isqrt(energy) (specified and proved), quorum weight = energy, tallies = sums over distinct ballots; fee escrow: leaves at most once, exact refund/burn split, contract balance = sum of un-withdrawn fees. "
     "Tied to governance-v2 + energy mock + fees collector by differential replay with boundary-aligned vote multisets.", "7 C18", "Coq invariants + characterisation theorems + correspondence")
+CLAIMED["C13"] = ("Refinement proved for every ring capacity N >= 2 (instantiated with the extracted MAX_OBSERVATIONS): the ring + binary search + interpolation/extrapolation compute exactly the prefix sums of "
+    "start-of-round reserves; ring layout, strictly increasing rounds, search correctness within fuel, exact lookup, documented integer average, rejection of bad windows; composed with the pair model "
+    "(pre-operation reserves feed the ring, any number of operations per round). Tied to dex/pair by differential replay incl. injected full/wrapped rings of the real 65536 capacity.", "7 C13",
+    "Coq refinement proof (ring = prefix sums) + correspondence")
 NOT_YET = {}
 
 def main():
